@@ -76,6 +76,16 @@ class Monitors:
                 scale *= max(1.0, float(np.abs(a).max()))
         return 200 * eps * scale * 64
 
+    def tol_lin(self, op, q0):
+        # apply_gate / apply_control_n_gate are LINEAR in the state: the rounding error of out = E q is eps * |op| * |q|, so the
+        # tolerance follows the magnitude of the state (no floor at 1): a gate silently skipped on a vector of norm 1e-8, or on a
+        # control subspace holding amplitudes of 1e-8, is an error of the size of those amplitudes (round 5, seeded C03-i)
+        q = to_numpy(q0)
+        a = to_numpy(op)
+        eps = 1e-6 if (q.dtype in (np.float32, np.complex64) or a.dtype in (np.float32, np.complex64)) else 1e-15
+        qs = float(np.abs(q).max()) if q.size else 0.0
+        return 200 * eps * 64 * max(1.0, float(np.abs(a).max()) if a.size else 1.0) * qs + 1e-300
+
     def err(self, e):
         if np.isfinite(e):
             self.worst = max(self.worst, float(e))
@@ -105,7 +115,7 @@ class Monitors:
                 return
             tg = norm_index(index)
             ref = self.embed(op, tg, n) @ to_numpy(q0).astype(np.complex128)
-            ctx.close(c.result, ref, self.tol(op, q0), 'apply_gate/embedded-operator',
+            ctx.close(c.result, ref, self.tol_lin(op, q0), 'apply_gate/embedded-operator',
                       'sim.state.apply_gate differs from multiplying by the embedded operator', {'n': n, 'targets': tg, 'op': op})
             ctx.check(np.array_equal(to_numpy(c.args[0]), c.snap), 'apply_gate/input-modified', 'apply_gate modified its input state', {'targets': tg})
 
@@ -123,7 +133,7 @@ class Monitors:
             cs = norm_index(cs) if not isinstance(cs, (set, frozenset)) else tuple(sorted(int(x) for x in cs))
             tg = norm_index(tg)
             ref = self.embed(op, tg, n, cs) @ to_numpy(q0).astype(np.complex128)
-            ctx.close(c.result, ref, self.tol(op, q0), 'apply_control_n_gate/embedded-operator',
+            ctx.close(c.result, ref, self.tol_lin(op, q0), 'apply_control_n_gate/embedded-operator',
                       'apply_control_n_gate differs from the operator acting on the all-ones control subspace',
                       {'n': n, 'controls': cs, 'targets': tg, 'op': op})
             ctx.check(np.array_equal(to_numpy(c.args[0]), c.snap), 'apply_control_n_gate/input-modified', 'apply_control_n_gate modified its input state',
@@ -322,6 +332,16 @@ def wiring_cases(ctx, mon, numqi, n, part=0, nparts=1, exhaustive=True, ncases=0
             q0 = rq.rand_state(rng, 2**n, real=(kind == 'real' and rng.random() < 0.5))
             if rng.random() < 0.2:
                 q0 = q0 * 3.7  # un-normalised vectors are admissible inputs of a linear map
+            um = rng.random()
+            if um < 0.1:
+                q0 = q0 * float(10.0 ** rng.integers(-12, -5))  # tiny vectors: the map is linear
+            elif um < 0.25 and len(cs) > 0:
+                # amplitudes of 1e-6..1e-10 (not zero) on the all-ones control subspace, ordinary amplitudes elsewhere
+                q0 = q0.copy()
+                qv = q0.reshape([2] * n)
+                qv[tuple(1 if q in cs else slice(None) for q in range(n))] *= float(10.0 ** rng.integers(-10, -5))
+            elif um < 0.32:
+                q0 = q0 * np.where(rng.random(q0.shape) < 0.5, 1.0, 1e-9)  # wide dynamic range
             u = rng.random()
             if u < 0.15:
                 q0 = np.ascontiguousarray(q0.real)  # a real-dtype state is a state: a complex gate must give a complex result
